@@ -13,6 +13,7 @@
 package server
 
 import (
+	"sort"
 	"bytes"
 	"context"
 	"encoding/hex"
@@ -56,6 +57,10 @@ type vhtunScenario struct {
 	Entry string      `json:"entry"` // dialer | forwarder
 	Exit  string      `json:"exit"`  // listener | agent | clientfwd
 	Conns []vhtunConn `json:"conns"`
+	// EchoBurst > 0: after the scripted connections, that many clients connect AT THE SAME MOMENT; the upstream end echoes every
+	// connection; every client must read back exactly what it wrote (a connection handed to the wrong goroutine, two copiers on
+	// one stream, a stream left unserved all show)
+	EchoBurst int `json:"echo_burst"`
 }
 
 type vhtunInput struct {
@@ -83,6 +88,8 @@ type vhtunScenarioOut struct {
 	LegsBase   int            `json:"legs_base"` // goroutines of tunnelled connections before / after
 	LegsFinal  int            `json:"legs_final"`
 	Released   bool           `json:"released"`
+	BurstBad   []string       `json:"burst_bad,omitempty"` // what went wrong in the echo burst, per failing client
+	BurstN     int            `json:"burst_n,omitempty"`
 	Failed     bool           `json:"failed"` // a connection already failed; later checks were skipped
 	Goroutines string         `json:"goroutines,omitempty"`
 }
@@ -337,6 +344,75 @@ func vhtunOpen(env *vhtunEnv) (net.Conn, net.Conn, error) {
 	return nil, nil, fmt.Errorf("could not open a tunnelled connection: %v", lastErr)
 }
 
+func vhtunEchoBurst(env *vhtunEnv, n int) []string {
+	stop := make(chan struct{})
+	var awg sync.WaitGroup
+	awg.Add(1)
+	go func() { // the upstream end: echo every connection
+		defer awg.Done()
+		for {
+			select {
+			case <-stop:
+				return
+			default:
+			}
+			u, err := env.accept()
+			if err != nil {
+				continue
+			}
+			go func(u net.Conn) { _, _ = io.Copy(u, u); _ = u.Close() }(u)
+		}
+	}()
+	var mu sync.Mutex
+	bad := []string{}
+	var wg sync.WaitGroup
+	start := make(chan struct{})
+	for i := 0; i < n; i++ {
+		wg.Add(1)
+		go func(i int) {
+			defer wg.Done()
+			<-start
+			fail := func(s string) { mu.Lock(); bad = append(bad, fmt.Sprintf("client %d: %s", i, s)); mu.Unlock() }
+			c, err := env.dial()
+			if err != nil {
+				fail("dial: " + err.Error())
+				return
+			}
+			defer c.Close()
+			data := vhtunFill(1000+i, 48*1024)
+			_ = c.SetDeadline(time.Now().Add(15 * time.Second))
+			go func() {
+				for off := 0; off < len(data); off += 4096 {
+					if _, err := c.Write(data[off : off+4096]); err != nil {
+						return
+					}
+				}
+			}()
+			got := make([]byte, len(data))
+			if _, err := io.ReadFull(c, got); err != nil {
+				fail("read back: " + err.Error())
+				return
+			}
+			if !bytes.Equal(got, data) {
+				fail("the echoed bytes differ from what was written")
+			}
+		}(i)
+	}
+	close(start)
+	wg.Wait()
+	close(stop)
+	if pc, err := env.dial(); err == nil { // wake the acceptor up so that it sees the stop
+		_, _ = pc.Write([]byte("x"))
+		time.AfterFunc(500*time.Millisecond, func() { _ = pc.Close() })
+	}
+	awg.Wait()
+	sort.Strings(bad)
+	if len(bad) > 4 {
+		bad = append(bad[:4], fmt.Sprintf("... %d more", len(bad)-4))
+	}
+	return bad
+}
+
 func vhtunRunConn(env *vhtunEnv, spec vhtunConn) (out vhtunConnOut) {
 	c, u, err := vhtunOpen(env)
 	if err != nil {
@@ -533,6 +609,14 @@ func vhtunRunScenario(sc vhtunScenario) (out vhtunScenarioOut) {
 		out.Conns = append(out.Conns, co)
 		if co.Error != "" || co.GotUp != co.SentUp || co.GotDown != co.SentDown || !co.EOFSeen {
 			// one failing connection is enough; the rest would only wait for time-outs
+			out.Failed = true
+			return
+		}
+	}
+	if sc.EchoBurst > 0 {
+		out.BurstN = sc.EchoBurst
+		out.BurstBad = vhtunEchoBurst(env, sc.EchoBurst)
+		if len(out.BurstBad) > 0 {
 			out.Failed = true
 			return
 		}
